@@ -3,12 +3,15 @@ import json, os
 HERE = os.path.dirname(os.path.dirname(os.path.abspath(__file__)))
 import importlib, sys
 sys.path.insert(0, os.path.join(HERE, "tools"))
+HOLD = set()
+if os.path.exists(os.path.join(HERE, "tools", "hold.txt")):
+    HOLD = set(open(os.path.join(HERE, "tools", "hold.txt")).read().split())
 CLAIMED = {}
 TARGETS = ["ScoresVerif.Driver.Loop"]
 for fn in sorted(os.listdir(os.path.join(HERE, "tools", "sv", "props"))):
     if fn.startswith("c") and fn.endswith(".py"):
         m = importlib.import_module("sv.props." + fn[:-3])
-        if getattr(m, "MANIFEST", None):
+        if getattr(m, "MANIFEST", None) and m.PROPERTY not in HOLD:
             CLAIMED[m.PROPERTY] = m.MANIFEST
             TARGETS += [p[:-5].replace("/", ".") for p in getattr(m, "PROPS", [])] + list(getattr(m, "DRIVER_DEPS", []))
 REASON_PENDING = "check not built yet in this session; the property is within reach of the technique (see DESIGN.md section 6) and will be claimed when its model, theorems and correspondence exist"
